@@ -24,6 +24,7 @@ tx param <h> <key> <value> <signer> <fee>                     => <code> <feeTake
 tx send <h> <from> <to> <amount> <fee>                        => <code> <feeTaken> STATE
 inj slash <h> <addr> <amount> | inj burnchal <h> <addr> <n> | inj reward <h> <addr> <relays> => STATE
 end <h> <t>                                                   => upd=… STATE
+lookup <h> <chain>                                            => <addr;…>   (GetValidatorsByChain on the end-of-block state)
 ```
 -/
 namespace NodesDriver
@@ -401,6 +402,22 @@ def step (σ : St) (pre post : List String) : St × Verdict :=
         judge σ "end" h t cur (parseState ws) { model := m, modelNote := updatesNote mu us } us
       | none => (σ, .bad "end updates")
     | _, _, _ => (σ, .bad "end args")
+  | ["lookup", h, c] =>
+    match pInt h, pB c, post with
+    | some h, some c, [r] =>
+      match (listOf r ";").mapM pB with
+      | some impl =>
+        let srt (l : List Bytes) : List String := sortS (l.map rB)
+        let spec := (cur.vals.filter fun p => p.2.status = .staked ∧ c ∈ p.2.chains).map (·.1)
+        let model := validatorsByChain cur c
+        let σ' := σ
+        if σ.prop = "C21" && srt impl ≠ srt spec then
+          let sig := if srt impl = srt model && c.length < 2 then "chain-lookup-prefix-collision" else "chain-lookup-wrong"
+          (σ', .propfail sig s!"lookup h={h} chain={rB c} impl={srt impl} staked-nodes-of-chain={srt spec}")
+        else if srt impl ≠ srt model then (σ', .diff s!"lookup h={h} chain={rB c} impl={srt impl} model={srt model}")
+        else (σ', .ok)
+      | none => (σ, .bad "lookup result")
+    | _, _, _ => (σ, .bad "lookup args")
   | ["inj", "slash", h, a, amt] =>
     match pInt h, pB a, pInt amt with
     | some h, some a, some amt =>
